@@ -49,10 +49,11 @@ def lastNl (t : Txt) : Option Nat :=
   let idxs := (List.range t.length).filter fun i => t[i]! = 10
   idxs.getLast?
 
-def hex2 (n : Nat) : Txt :=
-  let d (x : Nat) : Nat := if x < 10 then 48 + x else 87 + x
-  [d (n / 16 % 16), d (n % 16)]
-def hexN (k n : Nat) : Txt := (List.range k).reverse.flatMap fun i => [(hex2 (n / 16 ^ i % 16))[1]!]
+def hexDigit (x : Nat) : Nat := if x < 10 then 48 + x else 87 + x
+def hex2 (n : Nat) : Txt := [hexDigit (n / 16 % 16), hexDigit (n % 16)]
+def hex4 (n : Nat) : Txt := [hexDigit (n / 4096 % 16), hexDigit (n / 256 % 16), hexDigit (n / 16 % 16), hexDigit (n % 16)]
+def hex8 (n : Nat) : Txt :=
+  [hexDigit (n / 268435456 % 16), hexDigit (n / 16777216 % 16), hexDigit (n / 1048576 % 16), hexDigit (n / 65536 % 16)] ++ hex4 n
 
 /-- unicode.IsPrint: exact on ASCII and Latin-1; beyond that "printable unless a space / control /
     line separator" (declared limitation) -/
@@ -62,28 +63,32 @@ def isPrint (r : Nat) : Bool :=
   else !(isSpace r) && !(0xD800 ≤ r && r ≤ 0xDFFF) && !(0xE000 ≤ r && r ≤ 0xF8FF)
     && r != 0xFEFF && !(0x200B ≤ r && r ≤ 0x200F) && !(0x202A ≤ r && r ≤ 0x202E) && !(0x2060 ≤ r && r ≤ 0x206F)
 
+/-- utf8.DecodeRune on the head of a non-empty byte list: (rune, width); invalid ⇒ (U+FFFD, 1) -/
+def decodeHead (l : List Nat) : Nat × Nat :=
+  decodeBytes l.length (l.getD 0 0) (l.getD 1 0) (l.getD 2 0) (l.getD 3 0)
+
+/-- what strconv.Quote writes for the rune at the head of `l` (rune `r`, width `w`) -/
+def quotePiece (l : List Nat) (r w : Nat) : Txt :=
+  if w = 1 && r = runeError then [92, 120] ++ hex2 (l.getD 0 0)                  -- \xNN of an invalid byte
+  else if r = 34 then [92, 34] else if r = 92 then [92, 92]
+  else if isPrint r then l.take w
+  else if r = 7 then [92, 97] else if r = 8 then [92, 98] else if r = 12 then [92, 102]
+  else if r = 10 then [92, 110] else if r = 13 then [92, 114] else if r = 9 then [92, 116]
+  else if r = 11 then [92, 118]
+  else if r < 0x20 || r = 0x7F then [92, 120] ++ hex2 r
+  else if r < 0x10000 then [92, 117] ++ hex4 r
+  else [92, 85] ++ hex8 r
+
+/-- the text between the quotes (fuel = an upper bound of the number of runes) -/
+def quoteBody : Nat → List Nat → Txt
+  | 0, _ => []
+  | _, [] => []
+  | f+1, c :: cs =>
+    quotePiece (c :: cs) (decodeHead (c :: cs)).1 (decodeHead (c :: cs)).2 ++
+      quoteBody f ((c :: cs).drop (decodeHead (c :: cs)).2)
+
 /-- strconv.Quote -/
-def quote (t : Txt) : Txt :=
-  let arr := t.toArray
-  let rec go (fuel i : Nat) : Txt :=
-    match fuel with
-    | 0 => []
-    | f+1 =>
-      if i ≥ arr.size then []
-      else
-        let (r, w) := decodeRune arr i
-        let piece : Txt :=
-          if w = 1 && r = runeError then s "\\x" ++ hex2 (arr.getD i 0)
-          else if r = 34 then s "\\\"" else if r = 92 then s "\\\\"
-          else if isPrint r then (arr.extract i (i + w)).toList
-          else if r = 7 then s "\\a" else if r = 8 then s "\\b" else if r = 12 then s "\\f"
-          else if r = 10 then s "\\n" else if r = 13 then s "\\r" else if r = 9 then s "\\t"
-          else if r = 11 then s "\\v"
-          else if r < 0x20 || r = 0x7F then s "\\x" ++ hex2 r
-          else if r < 0x10000 then s "\\u" ++ hexN 4 r
-          else s "\\U" ++ hexN 8 r
-        piece ++ go f (i + w)
-  [34] ++ go (t.length + 1) 0 ++ [34]
+def quote (t : Txt) : Txt := [34] ++ quoteBody (t.length + 1) t ++ [34]
 
 /-- templates: key ↦ pieces (`inl` = text, `inr k` = child k (1-based); 0 = val, 100 = qval) -/
 def tmpl (key : String) : Option (List (String ⊕ Nat)) :=
